@@ -214,6 +214,9 @@ class Classifier:
                     self.space(t.args[1], kc, depth + 1) if len(t.args) > 1 else None)
             if t.name == "mask" and len(t.args) == 2:
                 return Sp("M")
+            if t.name == "apply" and len(t.args) >= 2 and t.args[1].op in ("free", "name") and t.args[1].name == "list":
+                # grouped[col].apply(list): the values of the column, grouped
+                return self.space(t.args[0], kc, depth + 1)
             if t.name == "apply" and len(t.args) >= 2 and t.args[1].op == "lambda":
                 # grouped.apply(lambda x: x.index.values): row labels of the grouped table
                 body = t.args[1].args[0]
